@@ -31,6 +31,7 @@ import (
 	"tunnox-core/internal/cloud/stats"
 	"tunnox-core/internal/core/idgen"
 	"tunnox-core/internal/core/storage"
+	"tunnox-core/internal/packet"
 	"tunnox-core/internal/protocol/session"
 	"tunnox-core/internal/protocol/session/tunnel"
 	"tunnox-core/internal/stream"
@@ -305,6 +306,51 @@ func b2s(b bool) string {
 	return "0"
 }
 
+// adpMode: the current case is a `bridgeadp` case (set by execCase; cases run one at a time)
+var adpMode bool
+
+// adpStream is a PackageStreamer without raw reader/writer that implements tunnel.StreamDataForwarder over a
+// scripted connection; every second ReadAvailable is an idle poll that returns no data and no error.
+type adpStream struct {
+	c    *scriptConn
+	tick int
+}
+
+func (a *adpStream) GetReader() io.Reader { return nil }
+func (a *adpStream) GetWriter() io.Writer { return nil }
+func (a *adpStream) ReadPacket() (*packet.TransferPacket, int, error) {
+	return nil, 0, fmt.Errorf("adpStream: no packets")
+}
+func (a *adpStream) WritePacket(*packet.TransferPacket, bool, int64) (int, error) {
+	return 0, fmt.Errorf("adpStream: no packets")
+}
+func (a *adpStream) ReadExact(n int) ([]byte, error) {
+	b := make([]byte, n)
+	_, err := io.ReadFull(a.c, b)
+	return b, err
+}
+func (a *adpStream) ReadAvailable(max int) ([]byte, error) {
+	a.tick++
+	if a.tick%2 == 1 {
+		return nil, nil // idle poll
+	}
+	b := make([]byte, max)
+	n, err := a.c.Read(b)
+	return b[:n], err
+}
+func (a *adpStream) WriteExact(d []byte) error {
+	for len(d) > 0 {
+		n, err := a.c.Write(d)
+		if err != nil {
+			return err
+		}
+		d = d[n:]
+	}
+	return nil
+}
+func (a *adpStream) Close()                  { a.c.Close() }
+func (a *adpStream) GetConnectionID() string { return "adp" }
+
 func runBridge(lim string, src, tgt []readEv, sw, tw []writeEv, stall, realPath, dup bool) string {
 	res := make(chan string, 1)
 	go func() {
@@ -330,7 +376,13 @@ func runBridge(lim string, src, tgt []readEv, sw, tw []writeEv, stall, realPath,
 			// the production path: SessionManager.startSourceBridge with a cloud control, both ends attached
 			// through real StreamProcessors (forwarders built from the streams' reader/writer)
 			sm.SetCloudControl(&realCC{limit: limitOf(lim)})
-			ssp := stream.NewStreamProcessor(sc, sc, ctx)
+			var ssp stream.PackageStreamer = stream.NewStreamProcessor(sc, sc, ctx)
+			if adpMode {
+				// the source end is a stream WITHOUT a raw reader/writer (HTTP long polling, WebSocket server
+				// connection): the bridge serves it through streamDataForwarderAdapter, whose ReadAvailable polls
+				// come back empty while the end is idle
+				ssp = &adpStream{c: sc}
+			}
 			tsp = stream.NewStreamProcessor(tc, tc, ctx)
 			if err := sm.VerifStartSourceBridgeStream(id, "verif-mapping", sc, ssp); err != nil {
 				res <- "start-failed " + strings.ReplaceAll(err.Error(), " ", "_")
@@ -533,12 +585,13 @@ func execCase(out *vc.Out, caseStr string) {
 		execReattach(out, caseStr, toks)
 	case "xnode":
 		execXnode(out, caseStr, toks)
-	case "bridge", "bridgestall", "bridgereal", "bridgedup":
+	case "bridge", "bridgestall", "bridgereal", "bridgedup", "bridgeadp":
 		src, i := parseReads(toks, 3, true)
 		tgt, i := parseReads(toks, i, true)
 		sw, i := parseWrites(toks, i)
 		tw, _ := parseWrites(toks, i)
-		obs := runBridge(toks[2], src, tgt, sw, tw, toks[0] == "bridgestall", toks[0] == "bridgereal", toks[0] == "bridgedup")
+		adpMode = toks[0] == "bridgeadp"
+		obs := runBridge(toks[2], src, tgt, sw, tw, toks[0] == "bridgestall", toks[0] == "bridgereal" || toks[0] == "bridgeadp", toks[0] == "bridgedup")
 		key := caseStr
 		if len(key) > 200 {
 			key = key[:200] + strconv.Itoa(len(caseStr))
@@ -736,6 +789,11 @@ func gen(out *vc.Out, r *vc.Rand, thorough bool) {
 		case 1, 2: // the production path: real startSourceBridge, stream-backed forwarders
 			kind = "bridgereal"
 			out.Count("bridge:real-start-path")
+		case 3: // the same with a source end served through streamDataForwarderAdapter (idle polls in between)
+			if !faults {
+				kind = "bridgeadp"
+				out.Count("bridge:adapter-served-source")
+			}
 		}
 		execCase(out, kind+" lim "+lim+" "+fmtReads("src", src, true)+" "+fmtReads("tgt", tgt, true)+" "+fmtWrites("sw", sw)+" "+fmtWrites("tw", tw))
 	}
